@@ -1,4 +1,159 @@
 import Anytree.Model.Nav
 import Anytree.Spec.Nav
+import Anytree.Props.C05
+import Anytree.Lemmas.Nav
+/-!
+# C04 — navigation attributes and sibling/ancestor helpers equal their definitions
+
+Every theorem: mirror (`Nav.*`, the code's loops on the zipper) = definition (`Spec.*`), for every
+tree, every node address, no bound on size or depth.
+-/
 namespace Anytree.Props.C04
+open Anytree Tree
+
+variable {α : Type}
+
+/-- a valid node address -/
+def Valid (r : Tree α) (a : Addr) : Prop := (sub r a).isSome = true
+
+theorem path_eq (a : Addr) : Nav.path a = Spec.pathS a := Nav.path_eq_prefixes a
+
+/-- the path is the chain from the root down to the node: starts at the root, ends at the node,
+consecutive elements are parent and child -/
+theorem path_chain (a : Addr) :
+    (Spec.pathS a).head? = some [] ∧ (Spec.pathS a).getLast? = some a ∧
+    ∀ i (h : i + 1 < (Spec.pathS a).length),
+      ((Spec.pathS a)[i + 1]).dropLast = (Spec.pathS a)[i]'(by omega) := by
+  refine ⟨?_, ?_, ?_⟩
+  · cases a <;> simp [Spec.pathS, Spec.prefixes]
+  · rcases snoc_cases a with rfl | ⟨b, i, rfl⟩
+    · simp [Spec.pathS, Spec.prefixes]
+    · simp [Spec.pathS, Spec.prefixes_concat]
+  · intro i h
+    simp only [Spec.pathS] at h ⊢
+    rw [Spec.prefixes_getElem, Spec.prefixes_getElem]
+    rw [Spec.length_prefixes] at h
+    rw [List.dropLast_eq_take, List.take_take, List.length_take]
+    congr 1
+    omega
+
+theorem ancestors_eq (a : Addr) : Nav.ancestors a = Spec.ancestorsS a := by
+  unfold Nav.ancestors Spec.ancestorsS
+  rcases snoc_cases a with rfl | ⟨b, i, rfl⟩
+  · simp [Spec.prefixes]
+  · simp [Nav.path_eq_prefixes, Spec.dropLast_prefixes_concat]
+
+theorem root_eq (a : Addr) : Nav.root a = Spec.rootS a := by
+  unfold Spec.rootS
+  induction a using snoc_induction with
+  | h0 => exact Nav.root_nil
+  | h1 b i ih => rw [Nav.root_concat, ih]
+
+theorem root_is_path_head (a : Addr) : (Nav.path a).head? = some (Nav.root a) := by
+  rw [root_eq, path_eq]
+  exact (path_chain a).1
+
+theorem depth_eq (a : Addr) : Nav.depth a = Spec.depthS a := by
+  simp [Nav.depth, Spec.depthS, Nav.length_climb]
+
+theorem depth_eq_len_ancestors (a : Addr) : Nav.depth a = (Nav.ancestors a).length := by
+  rw [depth_eq, ancestors_eq]
+  simp [Spec.depthS, Spec.ancestorsS, Spec.length_prefixes]
+
+theorem isRoot_eq (a : Addr) : Nav.isRoot a = Spec.isRootS a := by
+  cases a <;> simp [Nav.isRoot, Spec.isRootS]
+
+theorem isLeaf_eq (r : Tree α) (a : Addr) : Nav.isLeaf r a = Spec.isLeafS r a := by
+  simp [Nav.isLeaf, Spec.isLeafS, Nav.childAddrs_eq]
+
+theorem siblings_eq (r : Tree α) (a : Addr) (h : Valid r a) : Nav.siblings r a = Spec.siblingsS r a := by
+  unfold Nav.siblings Spec.siblingsS
+  rcases snoc_cases a with rfl | ⟨b, i, rfl⟩
+  · simp
+  · simp only [Nav.childAddrs_eq, List.filter_map, Function.comp_def, List.append_eq_nil_iff,
+      List.cons_ne_self, and_false, if_false, List.dropLast_concat, List.getLast?_concat]
+    congr 2
+    funext x
+    simp [bne]
+
+theorem descendants_eq (r : Tree α) (a : Addr) : Nav.descendants r a = Spec.descendantsS r a := by
+  unfold Nav.descendants Spec.descendantsS Nav.here
+  cases sub r a with
+  | none => rfl
+  | some t =>
+    show ((Iter.preIter C05.allF C05.noS none (addrTreeAux a t)).map label).tail = _
+    rw [C05.preIter_eq, C05.pre_decorate, pre_addrTreeAux]
+    exact List.map_tail.symm
+
+theorem leaves_eq (r : Tree α) (a : Addr) : Nav.leaves r a = Spec.leavesS r a := by
+  unfold Nav.leaves Spec.leavesS Nav.here
+  cases sub r a with
+  | none => rfl
+  | some t =>
+    show (Iter.preIter (fun n => n.kids.length == 0) C05.noS none (addrTreeAux a t)).map label = _
+    rw [C06.preIter_spec, Spec.preSpec, C05.admit_all, Spec.optPre, leaves_addrTreeAux]
+
+theorem size_eq (r : Tree α) (a : Addr) : Nav.size r a = Spec.sizeS r a := by
+  unfold Nav.size Spec.sizeS Nav.here
+  cases sub r a with
+  | none => rfl
+  | some t =>
+    show (Iter.preIter C05.allF C05.noS none (addrTreeAux a t)).length = _
+    rw [C05.preIter_eq, ← List.length_map (f := label), C05.pre_decorate, pre_addrTreeAux,
+      List.length_map, length_addrs]
+
+theorem size_eq_succ_descendants (r : Tree α) (a : Addr) (h : Valid r a) :
+    Nav.size r a = 1 + (Nav.descendants r a).length := by
+  rw [size_eq, descendants_eq]
+  unfold Spec.sizeS Spec.descendantsS
+  unfold Valid at h
+  cases hs : sub r a with
+  | none => simp [hs] at h
+  | some t =>
+    simp only [List.length_map, List.length_tail, length_addrs]
+    cases t; simp only [Tree.size]; omega
+
+theorem height_eq (r : Tree α) (a : Addr) : Nav.height r a = Spec.heightS r a := by
+  unfold Nav.height Spec.heightS
+  cases sub r a <;> simp [heightT_eq]
+
+/-- `height` is the number of edges on the longest downward path: some node of the subtree lies that
+deep and none deeper -/
+theorem height_spec (t : Tree α) :
+    (∃ b ∈ addrs t, b.length = t.height) ∧ ∀ b ∈ addrs t, b.length ≤ t.height :=
+  height_spec_aux t
+
+theorem commonAncestors_eq {β : Type} [DecidableEq β] (ancs : List (List β)) :
+    Nav.commonAncestors ancs = Spec.lcpAll ancs := Nav.commonAncestors_eq_lcpAll ancs
+
+/-- the specification really is the longest common prefix -/
+theorem lcpAll_prefix {β : Type} [DecidableEq β] (ls : List (List β)) :
+    ∀ l ∈ ls, Spec.lcpAll ls <+: l := Spec.lcpAll_prefix' ls
+
+theorem lcpAll_maximal {β : Type} [DecidableEq β] (ls : List (List β)) (hne : ls ≠ [])
+    (p : List β) (hp : ∀ l ∈ ls, p <+: l) : p <+: Spec.lcpAll ls := Spec.lcpAll_maximal' ls hne p hp
+
+theorem leftSibling_eq (r : Tree α) (a : Addr) (h : Valid r a) : Nav.leftSibling r a = Spec.leftS r a := by
+  unfold Nav.leftSibling Spec.leftS
+  rcases snoc_cases a with rfl | ⟨b, i, rfl⟩
+  · simp
+  · have hi := Spec.lt_nkids_of_valid r b i h
+    simp only [List.append_eq_nil_iff, List.cons_ne_self, and_false, if_false,
+      List.dropLast_concat, List.getLast?_concat, Nav.idxOf_childAddrs r b i hi]
+    by_cases h0 : i = 0
+    · simp [h0]
+    · have : i - 1 < Spec.nkids r b := by omega
+      simp [h0, this, Nav.childAddrs_eq]
+
+theorem rightSibling_eq (r : Tree α) (a : Addr) (h : Valid r a) : Nav.rightSibling r a = Spec.rightS r a := by
+  unfold Nav.rightSibling Spec.rightS
+  rcases snoc_cases a with rfl | ⟨b, i, rfl⟩
+  · simp
+  · have hi := Spec.lt_nkids_of_valid r b i h
+    simp only [List.append_eq_nil_iff, List.cons_ne_self, and_false, if_false,
+      List.dropLast_concat, List.getLast?_concat, Nav.idxOf_childAddrs r b i hi]
+    by_cases h1 : i + 1 < Spec.nkids r b
+    · simp [h1, Nav.childAddrs_eq]
+    · simp [h1, Nav.childAddrs_eq]
+
 end Anytree.Props.C04
